@@ -164,7 +164,9 @@ def run(prog, rep, tier):
                 if note_only:
                     rep.notes.append("NOTE drf: %s returns %s" % (f.qname, sorted(map(str, bad))))
                 else:
-                    only_maybe_g = all(OW.strip_maybe(l)[0] == "G" and l[0].endswith("?") for l in bad)
+                    # what comes back out of a module-level table may be that table's own object: harmless when what the table holds is immutable
+                    # (memoised closures), storage shared between calls when it is an array (the caller edits one result and corrupts the next)
+                    only_maybe_g = all(OW.strip_maybe(l)[0] == "G" and l[0].endswith("?") for l in bad) and OW.IMM in top
                     (rep.unk if only_maybe_g else rep.bad)("M4.return", fwhere(f), "the returned object %s %s" % (
                         "may alias" if all(l[0].endswith("?") for l in bad) else "aliases",
                         ", ".join("%s `%s`" % ({"P": "parameter", "PE": "an element of parameter", "S": "self attribute", "SE": "an element of self attribute",
